@@ -72,7 +72,7 @@ func TestC26(t *testing.T) {
 		procChild()
 	}
 	run := evid.Start("C26", "exploration")
-	acc := enum.NewAcc(run, "7 signals (request-offer 0 and 7, SDP offer, SDP answer, ICE candidate, ICE with empty candidate, empty signal) x 3 keys encoded with EncodeWebRtcSignal and decoded with every key; every payload opened with DecryptWithPrivKey (right key) under each non-WebRTC context of the menu; every single-bit flip, truncation and 1-byte extension of the payloads (quick: key 0, thorough: all keys) decoded with the right key; raw byte strings of every length 0..64 over 8 fills decoded with every key; isOfferer on all ordered pairs of the ID menu. Non-trivial = every case except decoding an unmodified payload with its own key and the (a,a) pairs; distinct by (group, description)")
+	acc := enum.NewAcc(run, "7 signals (request-offer 0 and 7, SDP offer, SDP answer, ICE candidate, ICE with empty candidate, empty signal) x 3 keys encoded with EncodeWebRtcSignal and decoded with every key; every payload opened with DecryptWithPrivKey (right key) under each non-WebRTC context of the menu; every single-bit flip, truncation and 1-byte extension of the payloads (quick: key 0, thorough: all keys) decoded with the right key; raw byte strings of every length 0..64 over 8 fills decoded with every key; isOfferer on all ordered pairs of the ID menu; process histories: every history over {encode, decode} of length 0..2 as the first operations of a fresh re-executed process, then one decode of a payload made elsewhere and one encode decoded in another fresh process. Non-trivial = every case except decoding an unmodified payload with its own key and the (a,a) pairs; distinct by (group, description)")
 	keys := enum.Keys(3)
 
 	type sig struct {
